@@ -171,9 +171,12 @@ static carquet_status_t flush_current_page(carquet_column_writer_internal_t* wri
         return status;
     }
 
-    /* Update statistics */
-    writer->total_uncompressed_size += uncompressed_size;
-    writer->total_compressed_size += compressed_size;
+    /* Update statistics.  Both chunk totals include the page headers
+     * (parquet.thrift: "total byte size of all (un)compressed pages in this
+     * column chunk (including the headers)"). */
+    size_t header_size = page_size - (size_t)compressed_size;
+    writer->total_uncompressed_size += uncompressed_size + (int64_t)header_size;
+    writer->total_compressed_size += (int64_t)page_size;
     writer->num_pages++;
 
     /* Reset page writer for next page */
